@@ -101,3 +101,54 @@ Example reverb_history_hypotheses_satisfiable :
   sizes_ok (fv_sizes 44100 fv_comb_tunings) /\ sizes_ok (fv_sizes 44100 fv_allpass_tunings) /\
   hd (0, 0) (fv_sizes 44100 fv_comb_tunings) = (1116, 1139) /\ hd (0, 0) (fv_sizes 48000 fv_comb_tunings) = (1214, 1239).
 Proof. split; [apply fv_sizes_ok|split; [apply fv_sizes_ok|split; reflexivity]]. Qed.
+
+(** the statement for the reference tunings: rates are integers (hertz) *)
+Definition reverb_at {F : Type} (fb damp width mix : F) (sr : Z) : effect F :=
+  EReverb (fv_sizes sr fv_comb_tunings) (fv_sizes sr fv_allpass_tunings) fb damp width mix.
+Theorem reverb_after_rate_history_fv :
+  forall (F : Type) (OPS : Ops F) (K : consts F) (fb damp width mix : F)
+         (hist : list (Z * list (frame F))) (s0 : estate F) (r : Z) (xs : list (frame F)),
+    is_reverb_state s0 ->
+    let mk := reverb_at fb damp width mix in
+    let rebuilt := @reverb_new F OPS (fv_sizes r fv_comb_tunings) (fv_sizes r fv_allpass_tunings) in
+    change_rate (mk r) (fst (run_hist K Z mk s0 hist)) = SReverb rebuilt /\
+    map (fun p => (length (snd (fst (fst p))), length (snd (fst (snd p))))) (fst rebuilt) =
+    map (fun n => (Z.to_nat (Z.max 1 (n * r / 44100)), Z.to_nat (Z.max 1 ((n + 23) * r / 44100)))) fv_comb_tunings /\
+    map (fun p => (length (fst (fst p)), length (fst (snd p)))) (snd rebuilt) =
+    map (fun n => (Z.to_nat (Z.max 1 (n * r / 44100)), Z.to_nat (Z.max 1 ((n + 23) * r / 44100)))) fv_allpass_tunings /\
+    snd (run_hist K Z mk s0 (hist ++ [(r, xs)])) =
+    snd (run_hist K Z mk s0 hist) ++
+    freeverb K (fv_sizes r fv_comb_tunings) (fv_sizes r fv_allpass_tunings) fb damp width mix xs.
+Proof.
+  intros F OPS K fb damp width mix hist s0 r xs H0 mk rebuilt.
+  destruct (reverb_after_rate_history K Z (fun sr => fv_sizes sr fv_comb_tunings) (fun sr => fv_sizes sr fv_allpass_tunings)
+              fb damp width mix hist s0 r xs H0 (fv_sizes_ok _ _) (fv_sizes_ok _ _)) as [H1 H2].
+  destruct (reverb_new_lengths F OPS (fv_sizes r fv_comb_tunings) (fv_sizes r fv_allpass_tunings)) as [L1 L2].
+  split; [exact H1|split; [exact L1|split; [exact L2|exact H2]]].
+Qed.
+
+From Coq Require Import Reals.
+From KV Require Import C14.ProofsFilterRate.
+Lemma run_history_is_run_hist : forall (mk : R -> effect R) hist s,
+    run_history mk s hist = run_hist consts_R R mk s hist.
+Proof.
+  intros mk. induction hist as [|[r xs] hist IH]; intros s; [reflexivity|].
+  cbn [run_history run_hist]. destruct (run_frames (estep consts_R (mk r)) (change_rate (mk r) s) xs) as [s1 o1].
+  rewrite IH. reflexivity.
+Qed.
+Lemma rate_history_definitions :
+  forall (F : Type) (OPS : Ops F) (K : consts F),
+    (forall (Rate : Type) (mk : Rate -> effect F) s, run_hist K Rate mk s [] = (s, [])) /\
+    (forall (Rate : Type) (mk : Rate -> effect F) s r xs rest,
+        run_hist K Rate mk s ((r, xs) :: rest) =
+        (let (s1, o1) := run_frames (estep K (mk r)) (change_rate (mk r) s) xs in
+         let (s2, o2) := run_hist K Rate mk s1 rest in (s2, o1 ++ o2))) /\
+    (forall (mk : R -> effect R) s hist, run_history mk s hist = run_hist consts_R R mk s hist) /\
+    (forall (fb damp width mix : F) sr,
+        reverb_at fb damp width mix sr = EReverb (fv_sizes sr fv_comb_tunings) (fv_sizes sr fv_allpass_tunings) fb damp width mix) /\
+    (forall (r : @reverb_state F), is_reverb_state (SReverb r)) /\
+    (forall (fb damp width mix : F) sr, is_reverb_state (init (reverb_at fb damp width mix sr))).
+Proof.
+  intros F OPS K. repeat split; try reflexivity.
+  intros mk s hist. apply run_history_is_run_hist.
+Qed.
